@@ -47,7 +47,49 @@ def __getattr__(name: str):
     """Let pickle find LegacyExpr in a process that has not built the pool yet."""
     if name == "LegacyExpr":
         return _deprecated_class()
+    if name in ("UserFunctorExpr", "UserScaledPower"):
+        _user_classes()
+        return globals()[name]
     raise AttributeError(name)
+
+
+def _user_classes():
+    """Expression classes a user defines with the public @unevaluated decorator (module level => picklable)."""
+    if "UserFunctorExpr" in globals():
+        return globals()["UserFunctorExpr"], globals()["UserScaledPower"]
+    from typing import Any, Callable  # noqa: PLC0415
+
+    import sympy as sp  # noqa: PLC0415
+
+    from ampform.sympy import argument, unevaluated  # noqa: PLC0415
+
+    @unevaluated
+    class UserFunctorExpr(sp.Expr):  # the example of the decorator's docstring: a *required* non-SymPy argument
+        x: Any
+        y: Any
+        functor: Callable = argument(sympify=False)
+
+        def evaluate(self) -> sp.Expr:
+            return self.functor(self.x, self.y)
+
+    @unevaluated
+    class UserScaledPower(sp.Expr):  # a SymPy field declared after a defaulted non-SymPy field
+        base: Any
+        unit: str = argument(default="m", sympify=False)
+        power: Any = 2
+
+        def evaluate(self) -> sp.Expr:
+            return self.base**self.power
+
+    for cls in (UserFunctorExpr, UserScaledPower):
+        cls.__module__ = __name__
+        cls.__qualname__ = cls.__name__
+        globals()[cls.__name__] = cls
+    return UserFunctorExpr, UserScaledPower
+
+
+def user_functor(x, y):
+    return x**2 + y
 
 
 def library_pool(with_doit: bool = True) -> list[dict]:  # noqa: PLR0914, PLR0915
@@ -142,6 +184,11 @@ def library_pool(with_doit: bool = True) -> list[dict]:  # noqa: PLR0914, PLR091
     add("deprecated.UnevaluatedExpression", legacy(x, y, 3))
     add("deprecated.UnevaluatedExpression:named", legacy(x, ps.BreakupMomentumSquared(s, m1, m2), 2, name="lg"))
 
+    add("deprecated.UnevaluatedExpression:empty name", legacy(x, y, 2, name=""))
+    functor_cls, scaled_cls = _user_classes()
+    add("user:required non-sympy argument", functor_cls(x, ps.BreakupMomentumSquared(s, m1, m2), functor=user_functor))
+    add("user:sympy field after defaulted attribute", scaled_cls(x + y, "km", 3))
+    add("user:nested", 1 + scaled_cls(functor_cls(x, y, user_functor), power=sp.Rational(1, 2)) ** 2)
     add("ArrayElement", ae.ArrayElement(p0, (0, 1)))
     shaped = ae.ArraySymbol("P", shape=(10, 4))
     add("ArraySlice(step)", ae.ArraySlice(p0, (slice(None, None, 2), 0)))
